@@ -52,9 +52,80 @@ SITE_TABLE = {
 }
 
 
+def dispatch_exhaustive(ctx, rule='TBL'):
+    """An if/elif chain that dispatches on the layout and has no final else
+    must name every meaningful layout that can reach it; otherwise a layout
+    falls through the chain and nothing is done for it (PLSSChunker.segment
+    cutting no block at all)."""
+    cl = layout_classes(ctx)
+    n = 0
+    for fi in ctx.repo.funcs.values():
+        if not fi.module.name.endswith('plssdesc.plss_parse'):
+            continue
+        env = ctx.fold.func_env(fi)
+        for node in walk_local(fi.node):
+            if not isinstance(node, ast.If) or (isinstance(node._parent, ast.If) and node in node._parent.orelse
+                                                and len(node._parent.orelse) == 1):
+                continue        # only chain heads
+            covered, calls, cur, has_else, ok = set(), 0, node, False, True
+            while True:
+                t = cur.test
+                sets = None
+                if isinstance(t, ast.Compare) and len(t.ops) == 1 and norm(t.left) == 'layout':
+                    v = ctx.fold.eval(t.comparators[0], env, fi.module.name)
+                    if not is_unknown(v):
+                        if isinstance(t.ops[0], ast.In):
+                            sets = set(v)
+                        elif isinstance(t.ops[0], ast.Eq):
+                            sets = {v}
+                if sets is None:
+                    ok = False
+                    break
+                covered |= sets
+                calls += sum(1 for b in cur.body for x in ast.walk(b) if isinstance(x, ast.Call))
+                if len(cur.orelse) == 1 and isinstance(cur.orelse[0], ast.If):
+                    cur = cur.orelse[0]
+                    continue
+                has_else = bool(cur.orelse)
+                break
+            if not ok or has_else or calls == 0 or len(covered) < 2:
+                continue
+            # a pure dispatch: nothing but `return` follows the chain in its block
+            blk = None
+            for fld in ('body', 'orelse', 'finalbody'):
+                b_ = getattr(node._parent, fld, None)
+                if isinstance(b_, list) and node in b_:
+                    blk = b_
+            if blk is None or any(not isinstance(x, (ast.Return, ast.Pass)) for x in blk[blk.index(node) + 1:]):
+                continue
+            n += 1
+            # layouts that cannot arrive here: excluded by an earlier `return`
+            excluded = set()
+            for prev in fi.node.body:
+                if prev is node:
+                    break
+                if isinstance(prev, ast.If) and any(isinstance(x, ast.Return) for x in prev.body):
+                    for x in ast.walk(prev.test):
+                        if isinstance(x, ast.Compare) and norm(x.left) == 'layout' and isinstance(x.ops[0], ast.Eq):
+                            v = ctx.fold.eval(x.comparators[0], env, fi.module.name)
+                            if not is_unknown(v):
+                                excluded.add(v)
+            missing = set(cl['meaningful']) - covered - excluded
+            ctx.check(not missing, rule, f"{fi.qualname}: the layout dispatch without else covers every meaningful layout",
+                      f"covers {sorted(covered)}",
+                      f"the chain handles {sorted(covered)} and has no else: for layout {sorted(missing)} none of its "
+                      f"branches runs, so nothing is produced for such a description",
+                      key=f"{rule}|{fi.qualname}|exhaustive|{','.join(sorted(missing))}", where=common.loc(fi, node))
+    return n
+
+
 def check_dispatch(ctx, rule='TBL'):
     cl = layout_classes(ctx)
     n = 0
+    try:
+        dispatch_exhaustive(ctx, rule)
+    except AnalysisError as e:
+        ctx.undecided(rule, 'layout dispatch chains are exhaustive', str(e))
     for spec, (want, why) in SITE_TABLE.items():
         fi = ctx.repo.func(spec)
         env = ctx.fold.func_env(fi)
